@@ -185,6 +185,34 @@ type PaginatedQueryOptions[T any] struct {
 	Options      T             `json:"options"`
 }
 
+// UnmarshalJSON reads the options back from a cursor token. The filter is an interface value: encoding/json cannot
+// decode into it by itself, it is parsed from the JSON form the builders render themselves in.
+func (opts *PaginatedQueryOptions[T]) UnmarshalJSON(data []byte) error {
+	type aux struct {
+		QueryBuilder json.RawMessage `json:"qb"`
+		PageSize     uint64          `json:"pageSize"`
+		Options      T               `json:"options"`
+	}
+	x := aux{}
+	if err := json.Unmarshal(data, &x); err != nil {
+		return err
+	}
+
+	*opts = PaginatedQueryOptions[T]{
+		PageSize: x.PageSize,
+		Options:  x.Options,
+	}
+	if len(x.QueryBuilder) > 0 && string(x.QueryBuilder) != "null" {
+		qb, err := query.ParseJSON(string(x.QueryBuilder))
+		if err != nil {
+			return err
+		}
+		opts.QueryBuilder = qb
+	}
+
+	return nil
+}
+
 func (opts PaginatedQueryOptions[T]) WithQueryBuilder(qb query.Builder) PaginatedQueryOptions[T] {
 	opts.QueryBuilder = qb
 
